@@ -39,6 +39,8 @@ REQUIRED_MONITORS = ['contract:PLSSDesc.parse', 'contract:Tract.parse',
                      'contract:Tract.preprocess', 'relation:no-commit',
                      'relation:repeat', 'relation:replay',
                      'relation:entry-points', 'relation:fresh-before-after',
+                     'relation:config-applied',
+                     'relation:parse_tracts-after-parse',
                      'tract-relation:replay']
 
 TEXTS = [
@@ -63,7 +65,8 @@ CFGS = ['clean_qq', 'segment', 'sec_within', 'qq_depth.1', 's,e',
         'sec_colon_cautious', 'parse_qq', 'break_halves,qq_depth_min.3',
         'parse_qq.False', 'suppress_lot_divs', 'copy_all', 'TRS_desc']
 TRACT_CFGS = ['clean_qq', 'qq_depth.1', 'break_halves,qq_depth_min.3',
-              'suppress_lot_divs', 'clean_qq.False', 'qq_depth_min.1']
+              'suppress_lot_divs', 'clean_qq.False', 'qq_depth_min.1',
+              'break_halves.False', 'suppress_lot_divs.False,clean_qq']
 
 
 def plan(tier, seed):
@@ -193,6 +196,31 @@ def canaries(pytrs):
     return [dcmp(pytrs.PLSSDesc(t, config=c or None)) for t, c in CANARIES]
 
 
+def config_says(cfgtext):
+    """{setting: value} for every setting a config text names outright
+    (the harness' own reading of 'name', 'name.False', 'name.3')."""
+    out = {}
+    for item in filter(None, (x.strip() for x in (cfgtext or '').split(','))):
+        name, _, val = item.partition('.')
+        if name in ('n', 's', 'e', 'w') or name in ('TRS_desc', 'desc_STR',
+                                                     'S_desc_TR', 'TR_desc_S',
+                                                     'copy_all'):
+            continue
+        out[name] = (True if val in ('', 'True') else False if val == 'False'
+                     else int(val) if val.isdigit() else val)
+    return out
+
+
+def config_not_applied(obj, cfgtext):
+    """None, or which setting of the object differs from what the config
+    text just assigned to it says."""
+    for name, val in config_says(cfgtext).items():
+        if hasattr(obj, name) and getattr(obj, name) != val:
+            return (f"{name} == {getattr(obj, name)!r} after .config = "
+                    f"{cfgtext!r}")
+    return None
+
+
 def rand_kw(rng):
     kw = {}
     for k, vals in dict(parse_qq=[True, False], clean_qq=[True, False],
@@ -257,6 +285,28 @@ def run_plss(case, ctx, rep, pytrs):
         for i, op in enumerate(ops):
             before = dsnap(d)
             apply(d, op)
+            if op[0] == 'config':
+                ctx.hit('relation:config-applied')
+                why = config_not_applied(d, op[1])
+                if why:
+                    ctx.violation('config-assignment-not-applied', case,
+                                  f"op #{i}: PLSSDesc.{why}", dedup='plss')
+                    return
+            if op[0] == 'parse' and op[1]['commit'] and len(d.tracts) \
+                    and all(t.parse_complete for t in d.tracts):
+                # the tracts were parsed by this call: parsing them again
+                # with no arguments reproduces the same results
+                ctx.hit('relation:parse_tracts-after-parse')
+                s0 = dcmp(d)
+                d.parse_tracts()
+                if dcmp(d) != s0:
+                    ctx.violation(
+                        'reparse-not-idempotent', case,
+                        f"op #{i} {op} followed by parse_tracts() without "
+                        f"arguments changed the results: "
+                        f"{first_diff(s0, dcmp(d), DNAMES[:1] + DNAMES[2:])}",
+                        dedup='parse_tracts-after-parse')
+                    return
             if op[0] in ('parse', 'preprocess') and not op[1]['commit']:
                 ctx.hit('relation:no-commit')
                 if dsnap(d) != before:
@@ -388,6 +438,13 @@ def run_tract(case, ctx, rep, pytrs):
         for i, op in enumerate(ops):
             before = tsnap(t)
             tapply(t, op)
+            if op[0] == 'config':
+                ctx.hit('relation:config-applied')
+                why = config_not_applied(t, op[1])
+                if why:
+                    ctx.violation('config-assignment-not-applied', case,
+                                  f"op #{i}: Tract.{why}", dedup='tract')
+                    return
             if op[0] in ('parse', 'preprocess') and not op[1]['commit']:
                 if tsnap(t) != before:
                     ctx.violation(
